@@ -320,6 +320,22 @@ def run(world, rep, tier, only=None):
                    "`%s` taken %s on the way to `retval = 1` (line %d) excludes the case that the two are equal" % (T.pp(a_)[:50], t, n.line))
     rep.floor("C16.i end-against-beginning comparisons in front of `retval = 1`", n_cmp, 3)
 
+    # ------------------------------------------------------------------ C16.j the read cursor and its successor move together
+    # rb_test_bit() answers "clear" for any bit between the end of bp->rcursor and the start of bp->rcursor_next
+    # without walking the tree: the pair brackets a gap.  A routine that moves the cursor to another extent settles
+    # the successor on every path before it returns (sets or clears it); a stale successor makes set bits that lie
+    # between the new cursor and the old successor read as clear.
+    n_cur = 0
+    for f in prog.fns_in_file(RB):
+        nxt = [n for n in f.events("S") if (T.last_field(n.ev["lhs"]) or ("", ""))[1] == "rcursor_next"]
+        for n in f.events("S"):
+            if (T.last_field(n.ev["lhs"]) or ("", ""))[1] != "rcursor" or T.const(n.ev.get("rhs")) == 0:
+                continue
+            n_cur += 1
+            rep.ob("C16.j", site(f, "successor settled whenever the read cursor is moved#%d" % n_cur), bool(nxt) and f.must_pass_after(n, nxt),
+                   "every path from `%s` (line %d) to the end of %s passes a store to bp->rcursor_next" % (n.text()[:30], n.line, f.name))
+    rep.floor("C16.j stores that move the read cursor to an extent", n_cur, 1)
+
     # ------------------------------------------------------------------ C16.d set_range assigns in both backends
     # the bit array copies the bytes over the range; the tree must drop what the range held before inserting
     ba = prog.fn("ba_set_bmap_range", "lib/ext2fs/blkmap64_ba.c")
